@@ -118,8 +118,8 @@ static std::vector<int> lane_weights(const std::string &lane, Rng &r) {
         w[OP_flush] = 3; w[OP_kill] = 3; w[OP_dim_append] = 3;
     } else if (lane == "tree" || lane == "durable") {
         w_set(w, links, 5); w_set(w, attrs, 4); w_set(w, props, 4); w_set(w, deletes, 2); w_set(w, arrdata, 2); w_set(w, dimops, 3); w_set(w, frameops, 2);
-        w[OP_arr_write] = 5; w[OP_reopen] = 12; w[OP_flush] = 4; w[OP_kill] = 4; w[OP_clock] = 4; w[OP_mk_graph] = 3; w[OP_mk_fitted] = 1; w[OP_del_misdirected] = 1; w[OP_replace_member] = 2;
-        if (lane == "durable") { w[OP_flush] = 14; w[OP_kill] = 14; w[OP_flush_fault] = 6; w[OP_close_fault] = 5; w[OP_use_stale] = 14; w[OP_keep] = 4; w[OP_drop] = 1; w[OP_reopen] = 10;
+        w[OP_arr_write] = 5; w[OP_reopen] = 12; w[OP_flush] = 4; w[OP_kill] = 4; w[OP_clock] = 4; w[OP_mk_graph] = 3; w[OP_mk_fitted] = 1; w[OP_del_misdirected] = 1; w[OP_replace_member] = 2; w[OP_force_created] = 4;
+        if (lane == "durable") { w[OP_flush] = 14; w[OP_kill] = 14; w[OP_flush_fault] = 6; w[OP_close_fault] = 5; w[OP_mk_crowd] = 1; w[OP_use_stale] = 14; w[OP_keep] = 4; w[OP_drop] = 1; w[OP_reopen] = 10;
                                  w[OP_arr_read] = 6; w[OP_frame_read_row] = 4; w[OP_dim_read] = 3; }
     } else if (lane == "names" || lane == "idhist") {
         w[OP_mk_graph] = 4; w[OP_mk_fitted] = 2; w[OP_replace_member] = 10; if (lane == "idhist") { w[OP_force_id] = 3; w[OP_clock] = 6; }
@@ -182,7 +182,10 @@ Plan generate_plan(const std::string &lane, uint64_t seed, int tier) {
     s.name_pool = r.range(2, 16);
     s.t0 = 1500000000 + (int64_t) r.below(200000000);
     s.entropy = r.next();
-    { unsigned m = (unsigned) ((s.entropy >> 40) % 4); s.mdc_mode = m < 2 ? 0 : (int) m - 1; }   // half of the runs keep libhdf5's default metadata cache
+    { unsigned m = (unsigned) ((s.entropy >> 40) % 4); s.mdc_mode = m < 2 ? 0 : (int) m - 1; }
+    // one run in ten starts its clock somewhere unusual: at the epoch (backward jumps then lead before it), next to the end of 32-bit
+    // time, in the 2090s, in the last second of 1999
+    if (((s.entropy >> 44) % 10) == 0) { static const int64_t odd[] = {0, 40, 2147483600LL, 2147483700LL, 4000000000LL, 946684799LL}; s.t0 = odd[(s.entropy >> 48) % 6]; }   // half of the runs keep libhdf5's default metadata cache
     s.weights = lane_weights(lane, r);
     const std::vector<int> &w = s.weights;
 
